@@ -66,8 +66,7 @@ func runC18(c *kit.Ctx) {
 	c.StartRule("R2", "the request is counted before its response can be processed", 1)
 	ups := kit.Calls(send, upName)
 	var writes []ssa.CallInstruction
-	writes = append(writes, kit.Calls(send, kit.M("region", "*client", "write"))...)
-	writes = append(writes, kit.Calls(send, "(*net.Buffers).WriteTo")...)
+	writes = append(writes, connWrites(p, send)...)
 	ordered := len(ups) == 1 && len(writes) > 0
 	if ordered {
 		for _, w := range writes {
@@ -289,16 +288,56 @@ func armsWithTimeout(call ssa.CallInstruction, readTimeout *types.Var) bool {
 // nonZeroDeadlineOnlyWhenPositive: every non-zero value that can reach the
 // deadline argument is assigned on an edge where counter > 0 holds.
 func nonZeroDeadlineOnlyWhenPositive(call ssa.CallInstruction, counter *types.Var) bool {
-	positiveAt := func(b *ssa.BasicBlock) bool {
-		for _, f := range kit.FactsAt(b) {
-			if cmp, ok := kit.CanonCmp(f.Cond, f.Pol); ok && cmp.Op == token.GTR && isLoadOfField(cmp.X, counter) {
-				if k, ok := kit.ConstInt(cmp.Y); ok && k == 0 {
-					return true
+	// the facts about the counter imply counter >= 1 (x > 0, x >= 1, or !(x < 0) && x != 0, ...)
+	positive := func(facts []kit.Fact) bool {
+		lb, neq0 := int64(-1<<62), false
+		for _, f := range facts {
+			cmp, ok := kit.CanonCmp(f.Cond, f.Pol)
+			if !ok || cmp.Bytes {
+				continue
+			}
+			op, x, y := cmp.Op, cmp.X, cmp.Y
+			if !isLoadOfField(x, counter) && isLoadOfField(y, counter) {
+				x, y = y, x
+				switch op {
+				case token.LSS:
+					op = token.GTR
+				case token.GTR:
+					op = token.LSS
+				case token.LEQ:
+					op = token.GEQ
+				case token.GEQ:
+					op = token.LEQ
+				}
+			}
+			if !isLoadOfField(x, counter) {
+				continue
+			}
+			k, ok := kit.ConstInt(y)
+			if !ok {
+				continue
+			}
+			switch op {
+			case token.GTR:
+				if k+1 > lb {
+					lb = k + 1
+				}
+			case token.GEQ:
+				if k > lb {
+					lb = k
+				}
+			case token.NEQ:
+				if k == 0 {
+					neq0 = true
 				}
 			}
 		}
-		return false
+		if lb == 0 && neq0 {
+			lb = 1
+		}
+		return lb >= 1
 	}
+	positiveAt := func(b *ssa.BasicBlock) bool { return positive(kit.FactsAt(b)) }
 	v := kit.Strip(call.Common().Args[0])
 	if isZeroTime(v) {
 		return true
@@ -309,15 +348,7 @@ func nonZeroDeadlineOnlyWhenPositive(call ssa.CallInstruction, counter *types.Va
 				continue
 			}
 			pred := ph.Block().Preds[k]
-			pos := false
-			for _, f := range kit.EdgeFacts(pred, ph.Block()) {
-				if cmp, ok := kit.CanonCmp(f.Cond, f.Pol); ok && cmp.Op == token.GTR && isLoadOfField(cmp.X, counter) {
-					if k0, ok := kit.ConstInt(cmp.Y); ok && k0 == 0 {
-						pos = true
-					}
-				}
-			}
-			if !pos {
+			if !positive(kit.EdgeFacts(pred, ph.Block())) {
 				return false
 			}
 		}
